@@ -86,6 +86,10 @@ namespace cnl::_impl {
                 if (!oob(output.significand)) {
                     output.significand *= InRadix;
                     in_exponent--;
+                } else {
+                    // no room to scale up: drop the least significant output digit (lossy, as for negative exponents)
+                    output.significand /= OutRadix;
+                    output.exponent++;
                 }
             }
         }
